@@ -94,6 +94,13 @@ CHECKS = [
            "code and random frames are validated by CsvTrace.tla.",
       note="pandas quoting/type inference trusted; values with ten consecutive dashes outside the domain",
       technique=TLA),
+ dict(property_id="C10", category="model_checking", design_ref="3.12",
+      text="EnsRank.tla models the pooled stable sort and tie-sequence scanner of c_ensrank and TLC checks it against the Weigel-Mason mid-rank "
+           "comparison and rank definitions for every ensemble set of the configs; every state is replayed through ensrank (F matrix and ranks) and "
+           "dscore (value, range, perfect/inverse order, monotone-map and member-permutation invariance); PIT range/monotonicity/pseudo flag and the "
+           "Cramer-von Mises formula on dyadic samples are replayed; random ensembles are validated by EnsRankTrace.tla.",
+      note="stable qsort assumed (glibc 2.36); AD statistic and p-value values not decided (range, order independence, rejection only)",
+      technique=TLA),
 ]
 
 _PENDING = "check not built yet in this round; see DESIGN.md section 3 for the planned specification"
